@@ -51,6 +51,20 @@ class StatsHook:
             self.fn_stats(obj, st, sline, cv, inst)
             self.curve_stats(obj, st, sline, cv, inst)
 
+    def light(self, real, obj, sline, cv):
+        """cheap subset of the comparison, run after every single action on the history-carrying object"""
+        inst = real.inst
+        st = sline["az"][0]
+        with warnings.catch_warnings():
+            warnings.simplefilter("ignore")
+            if st["nfn"] >= 2:
+                self.cmp(f"mean_fn_frequency[{inst.dist_f}]", obj.mean_fn_frequency(inst.dist_f), inst.f_mean(rat(st["mf"])), sline, cv, inst)
+                self.cmp(f"std_fn_frequency[{inst.dist_f}]", obj.std_fn_frequency(inst.dist_f), inst.f_std(rat(st["vf"])), sline, cv, inst)
+                self.cmp(f"mean_fn_amplitude[{inst.dist_a}]", obj.mean_fn_amplitude(inst.dist_a), inst.a_mean(rat(st["ma"])), sline, cv, inst)
+            if st["ncv"] >= 2:
+                self.cmp(f"mean_curve[{inst.dist_a}]", obj.mean_curve(inst.dist_a), [inst.a_mean(rat(m)) for m in st["mc"]], sline, cv, inst)
+                self.cmp(f"std_curve[{inst.dist_a}]", obj.std_curve(inst.dist_a), [inst.a_std(rat(v)) for v in st["vc"]], sline, cv, inst)
+
     def dists(self, d):
         return ["normal"] if d == "normal" else ["lognormal", "log-normal"]
 
@@ -146,7 +160,7 @@ def main():
     if nres.violated != "NoPeaklessAccepted":
         raise hvsrobj.MachineryError("negative configuration did not produce the expected counterexample")
     # 2. export + replay
-    k = 18 if quick else 6
+    k = 40 if quick else 6
     ex = hvsrobj.cfg_text(1, nw, 6, alpha, "Ranges6", "NSetA", "MaxItsA", "InitEnv", export=True)
     res, graph = hvsrobj.export_graph(ex, "C05-export", {"VERIF_K": k, "VERIF_SEED": run.seed}, timeout=2400)
     run.add_tlc(res, f"HvsrObject export, initial assignments with hash bucket {run.seed} mod {k}")
@@ -155,7 +169,7 @@ def main():
     rp = hvsrobj.Replayer(run, hvsrpy, graph, ALPHA6[:alpha_n], 1, nw, 6, consts, focus={"ManualReject", "Init"})
     hook = StatsHook(run, hvsrpy)
     for fenc, aenc in (("N", "N"), ("L", "L"), ("N", "L"), ("L", "N")):
-        rp.replay(hvsrobj.Instance(6, fenc, aenc), state_hook=hook)
+        rp.replay(hvsrobj.Instance(6, fenc, aenc), state_hook=hook, step_hook=hook.light)
     rp.validate_pending()
     run.notes["replay"] = rp.stats
     run.notes["accessor_comparisons"] = hook.n
